@@ -13,3 +13,4 @@ import LettreVerif.Props.C02
 #print axioms LV.C02.address_list_folded
 #print axioms LV.C02.sixty_recipients_folded
 #print axioms LV.C02.name_start_not_folded_witness
+#print axioms LV.C02.text_value_folded
